@@ -101,5 +101,5 @@ F7 ==
 
 Init == CASE Fam = "F1" -> F1 [] Fam = "F3" -> F3 [] Fam = "F4" -> F4 [] Fam = "F7" -> F7 [] Fam = "F8" -> F8
 Next == UNCHANGED <<dev, tgt>>
-Out == PrintT(<<"VOUT", ToJson([fam |-> Fam, dev |-> dev, tgt |-> tgt])>>)
+Out == PrintT(<<"VOUT", ToJson([fam |-> Fam, dev |-> dev, tgt |-> tgt, tie |-> FALSE])>>)
 =============================================================================
